@@ -356,6 +356,16 @@ func c09HeaderVerified(c *Ctx, m *Module, rule string) {
 
 // isMappedBytes: the bytes of the mapping just made (m.mapping.Data, or the Data of memmap's result).
 func isMappedBytes(v ssa.Value) bool {
+	// a slice of the mapped bytes that starts at 0: equality with (or a prefix test on) it still
+	// compares the file's first bytes
+	if sl, ok := strip(v).(*ssa.Slice); ok {
+		if sl.Low != nil {
+			if k, isC := intConst(sl.Low); !isC || k != 0 {
+				return false
+			}
+		}
+		return isMappedBytes(sl.X)
+	}
 	d := describe(v)
 	return strings.HasSuffix(d, ".Data") && (strings.Contains(d, "mapping") || strings.Contains(d, "memmap"))
 }
